@@ -11,7 +11,8 @@ Inductive obsk :=
 | o_cb_start | o_cb_end          (* a callback program starts / ends (a = callback id) *)
 | o_aux_result                   (* RunOnLoop/SetTimeout/SetInterval returned (a = submission id, b = 1 accepted 0 refused) *)
 | o_stop_returned                (* Stop() returned a *)
-| o_run_returned.
+| o_run_returned
+| o_terminate_returned.           (* Terminate() returned *)
 
 Inductive lev :=
 | LP (thread : nat) (p : pt) (arg arg2 : Z) (sn : snap)
@@ -84,7 +85,7 @@ Definition on_obs (s : lstate) (m : mon) (i : nat) (o : obsk) (a b : Z) : mon :=
   | o_cb_end => {| m_active := pred (m_active m); m_expect := m_expect m; m_started := m_started m; m_bad := m_bad m; m_diff := m_diff m |}
   | o_aux_result => if Bool.eqb (has (accepted s) a) (b =? 1) then m else flag m 8
   | o_stop_returned => if a =? live s then m else flag m 7
-  | o_run_returned => m
+  | o_run_returned | o_terminate_returned => m
   end.
 
 (* replay: the model state and monitor reached. After a difference in the job count alone the replay goes on without
@@ -147,6 +148,35 @@ Fixpoint starts (l : list lev) : list Z :=
 Definition observed_order (c : case) : list Z :=
   filter (fun cb => has (run_targets c) cb) (starts (c_log c)).
 
+(* ---- C08: a timeout or interval requested before Terminate() returned whose callback had not started by then never runs,
+   restarts included. Computed from the log alone (requests, returns of Terminate, callback starts). ---- *)
+Definition start_target (ks : list (Z * subkind)) (sid : Z) : option Z :=
+  match kind_of_list ks sid with Some (KStartTimeout t) | Some (KStartInterval t) => Some t | _ => None end.
+Fixpoint silent_scan (ks : list (Z * subkind)) (l : list lev) (requested started silent : list Z) : bool :=
+  match l with
+  | [] => true
+  | LO _ o_aux_result sid ok :: r =>
+    silent_scan ks r (match start_target ks sid with Some t => if ok =? 1 then t :: requested else requested | None => requested end) started silent
+  | LE _ e_js_timeout a _ _ :: r | LE _ e_js_interval a _ _ :: r => silent_scan ks r (a :: requested) started silent
+  | LO _ o_terminate_returned _ _ :: r =>
+    silent_scan ks r requested started (filter (fun t => negb (has started t)) requested ++ silent)
+  | LO _ o_cb_start a _ :: r => if has silent a then false else silent_scan ks r requested (a :: started) silent
+  | _ :: r => silent_scan ks r requested started silent
+  end.
+
+(* ---- C07: the loop leaves through the canRun test only if a stop was requested since it was (re)started.
+   Computed from the log alone. ---- *)
+Fixpoint self_stop_scan (l : list lev) (requested after_canrun : bool) : bool :=
+  match l with
+  | [] => true
+  | LP _ setrunning _ _ sn :: r => self_stop_scan r (if s_running sn then requested else false) after_canrun
+  | LP _ stop_request _ _ _ :: r | LP _ stopnowait _ _ _ :: r => self_stop_scan r true after_canrun
+  | LP _ run_canrun _ _ _ :: r => self_stop_scan r requested true
+  | LP _ run_select _ _ _ :: r => self_stop_scan r requested false
+  | LP _ run_leave _ _ sn :: r => if after_canrun && (0 <? s_jobcount sn) && negb requested then false else self_stop_scan r requested false
+  | _ :: r => self_stop_scan r requested after_canrun
+  end.
+
 Definition check_case (c : case) : list verdict :=
   let '(s, m) := replay (kind_of_list (c_kinds c)) init_after_setup mon0 (c_log c) 0 in
   (match m_diff m with Some (_, why) => [Diff (Z.to_N why)] | None => [] end) ++
@@ -160,6 +190,8 @@ Definition check_case (c : case) : list verdict :=
   (if has (m_bad m) 8 then [SpecFail 8] else []) ++
   (if (c_final_count c =? 0) then [] else [SpecFail 9]) ++
   (if Nat.eqb (c_final_jobs c) 0 then [] else [SpecFail 10]) ++
+  (if silent_scan (c_kinds c) (c_log c) [] [] [] then [] else [SpecFail 11]) ++
+  (if self_stop_scan (c_log c) false false then [] else [SpecFail 12]) ++
   (* what the model says about the end state: everything accepted was executed, in order (the run ends with Terminate) *)
   match m_diff m with
   | Some _ => []
